@@ -33,8 +33,8 @@ structure Inv (orig ref : Bytes) (s : St) : Prop extends Inv0 orig ref s where
 
 /-- the contract under which the class is used -/
 def allowed (orig : Bytes) (s : St) : Ev → Prop
-  | .overwrite _ _ => s.ms = [] ∧ s.queue = []      -- read(): "no more overwrites until the Deferred has fired"
-  | .setSize _ => s.ms = [] ∧ s.queue = []
+  | .overwrite _ _ => s.closed = false ∧ s.ms = [] ∧ s.queue = []   -- read(): "no more overwrites until the Deferred has fired"
+  | .setSize _ => s.closed = false ∧ s.ms = [] ∧ s.queue = []
   | .done true => orig.length ≤ s.pos               -- "download finished" comes after the last chunk
   | _ => True
 
@@ -42,6 +42,17 @@ def allowed (orig : Bytes) (s : St) : Ev → Prop
 def WF (v : Variant) (orig : Bytes) : St → List Ev → Prop
   | _, [] => True
   | s, e :: es => allowed orig s e ∧ WF v orig (step v orig s e).1 es
+
+instance (orig : Bytes) (s : St) (e : Ev) : Decidable (allowed orig s e) := by
+  cases e <;> unfold allowed <;> (try split) <;> infer_instance
+
+instance instDecidableWF (v : Variant) (orig : Bytes) : (s : St) → (es : List Ev) → Decidable (WF v orig s es)
+  | _, [] => isTrue trivial
+  | s, e :: es =>
+    match (inferInstance : Decidable (allowed orig s e)), instDecidableWF v orig (step v orig s e).1 es with
+    | isTrue h1, isTrue h2 => isTrue ⟨h1, h2⟩
+    | isFalse h1, _ => isFalse (fun h => h1 h.1)
+    | _, isFalse h2 => isFalse (fun h => h2 h.2)
 
 /-- the trace of a history: after each event, the state, the reference and the reads that completed -/
 def trace (v : Variant) (orig : Bytes) : St → Bytes → List Ev → List (St × Bytes × List Out)
